@@ -13,5 +13,7 @@ CONSTANTS
   MaxNodes = 5
   MaxSteps = 1
   LoadVals <- LiveChainsQ
+  COrigins = {"new", "zero"}
+  SOrigins = {"new"}
 INVARIANTS LiveSize LiveDecodes HeapOk
 CHECK_DEADLOCK FALSE
